@@ -13,31 +13,6 @@ RANDOM = {"queue": (400, 4000, 2000, 10000), "vec": (400, 4000, 2000, 10000), "s
           "strz": (100, 1000, 200, 1000), "slotmap": (400, 4000, 2000, 10000),
           "flatmap": (400, 4000, 2000, 10000)}
 
-# Candidate defects of /repo found by this check and reported to the lead, who decides between a
-# fix: commit in /repo and an entry in known_findings.json (matched by the same key).  Until
-# then the check prints CANDIDATE-DEFECT for them (with a replay file) instead of VIOLATION.
-# Remove a key here as soon as it is adjudicated; anything not listed is a VIOLATION.
-PENDING_CANDIDATES = {
-    "string:retain-inverted":
-        "String::retain(f) removes the bytes for which f returns true; its doc (and std retain) say it keeps those. "
-        "history: C str heap u8 1 ; O push 97 = ok ; O retain 97 = ok ; O bytes = l (reference: l97)",
-    "string:static-full-zero-len-remove-panics":
-        "on a FULL StaticString a zero-length removal panics (remove_range writes data_mut()[CAPACITY], out of range): "
-        "remove_range(i,0), strip_prefix(b\"\"), strip_suffix(b\"\"). history: C str fixed u8 1 ; O push 97 = ok ; O stripp - = P (reference: b1)",
-    "string:missing-nul-terminator":
-        "as_bytes_with_nul()/as_c_str() is not NUL-terminated on memory that is not already zero: RelocatableString::init writes no "
-        "terminator (history: C str reloc u8 1 ; O nul = u170) and Polymorphic/RelocatableString filled to capacity never write data[capacity] "
-        "(history: C str heap u8 1 ; O push 97 = ok ; O nul = u170); reference: u0",
-    "slotmap:cap0-head-not-invalid":
-        "SlotMap::new(0) leaves idx_to_data_free_list_head = 0 instead of INVALID: insert panics (index out of bounds) instead of returning None "
-        "and next_free_key returns Some(0). histories: C slotmap heap el 0 ; O insert 1 = P (reference: n)  and  C slotmap heap el 0 ; O nextfree = s0 (reference: n); "
-        "FlatMap::new(0).insert(k, v) panics for the same reason: C flatmap heap el 0 ; O insert 0 1 = P (reference: eFull)",
-    "slotmap:get-contains-oob-panic":
-        "SlotMap::get / get_mut / contains with key >= capacity panic (index out of bounds) although the doc promises None / false for a key that "
-        "is not contained (insert_at and remove were given the bounds check by fix: 1f4a6fa / b46c587). history: C slotmap heap el 1 ; O get 1 = P (reference: n)",
-}
-
-
 def _ops(hist):
     return [l for l in hist if l.startswith("O ")]
 
@@ -58,21 +33,9 @@ def classify(hist, mismatch=""):
     prev = ops[k - 2].split() if 1 < k <= len(ops) else []
     name = cur[1] if len(cur) > 1 else ""
     impl = cur[-1] if cur else ""
-    if kind == "str":
-        if name == "bytes" and prev and prev[1] == "retain":
-            return "string:retain-inverted"
-        if impl == "P" and flavour == "fixed" and ((name == "remover" and cur[3] == "0") or (name in ("stripp", "strips") and cur[2] == "-")):
-            return "string:static-full-zero-len-remove-panics"
-        if name == "nul" and flavour in ("heap", "reloc"):
-            return "string:missing-nul-terminator"
-    cap = hdr[4] if len(hdr) > 4 else "?"
-    if kind == "flatmap" and cap == "0" and name == "insert" and impl == "P":
-        return "slotmap:cap0-head-not-invalid"   # FlatMap::new(0).insert(..) panics for the same reason
-    if kind == "slotmap":
-        if cap == "0" and ((name == "insert" and impl == "P") or (name == "nextfree" and impl == "s0")):
-            return "slotmap:cap0-head-not-invalid"
-        if name in ("get", "contains") and impl == "P" and cap != "?" and int(cur[2]) >= int(cap):
-            return "slotmap:get-contains-oob-panic"
+    if kind == "str" and name == "bytes" and prev and prev[1] == "retain":
+        # String::retain(f) removes the bytes where f is true (doc and std: keeps them); known finding
+        return "string:retain-inverted"
     return None
 
 
@@ -144,8 +107,6 @@ def run(ctx):
         ctx.violation("correspondence job failed (harness or driver crashed): " + lbl, {"cmd": cmd, "rc": rc, "tail": tail}, no_input=True)
     # mismatches: spec mismatch = the property fails on a concrete history (replay = that history)
     reported = set()
-    candidates = {}
-    known_keys = {k.get("key") for k in ctx.known if k.get("status", "known") == "known"}
     nviol = 0
     seen_sig = set()
     for lbl, cmd, line in spec_mm:
@@ -162,19 +123,10 @@ def run(ctx):
             continue
         reported.add(key)
         body = {"history": hist, "harness_cmd": cmd, "mismatch": line, "how_to_rerun": cmd + " | " + driver}
-        if key in PENDING_CANDIDATES and key not in known_keys:
-            d = os.path.join(VERIF, "replays", "C16")
-            os.makedirs(d, exist_ok=True)
-            path = os.path.join(d, "candidate-" + key.replace(":", "-") + ".json")
-            body.update({"property": "C16", "key": key, "what": PENDING_CANDIDATES[key], "status": "candidate, reported to the lead, not adjudicated"})
-            open(path, "w").write(json.dumps(body, indent=1, sort_keys=True))
-            print("CANDIDATE-DEFECT: property=C16 key=%s replay=%s %s" % (key, path, PENDING_CANDIDATES[key]), flush=True)
-            candidates[key] = {"what": PENDING_CANDIDATES[key], "replay": path, "first_history": hist[:12]}
-            continue
         if nviol < 5:
+            # a key listed in known_findings.json prints KNOWN-FINDING; anything else is a VIOLATION
             if ctx.violation("implementation differs from the reference container: " + line, body, key=key):
                 nviol += 1
-    ctx.cov["candidate_defects_pending"] = candidates
     if model_mm:
         lbl, cmd, line = model_mm[0]
         case_no = int(line.split("case=")[1].split()[0])
